@@ -247,7 +247,7 @@ def suite_merge(ctx):
         for m in (1, 2, 3):
             combos = list(itertools.combinations(small, m))
             if m == 3 or (m == 2 and n_empty == 2):
-                combos = ctx.rng.sample(combos, 12 if ctx.quick else 60)
+                combos = ctx.rng.sample(combos, min(len(combos), 12 if ctx.quick else 60))
             with_empty += [c + (nothing,) * n_empty for c in combos]
     for _ in range(60 if ctx.quick else 600):
         m = ctx.rng.randrange(1, 7)
